@@ -41,6 +41,12 @@ type Auth struct {
 	Ctor  string `json:"ctor"`  // BasicAuth | BasicAuthRealm | BasicAuthCtx | BasicAuthRealmCtx
 	Realm string `json:"realm"` // argument of the *Realm* constructors ("" = library default)
 	Creds string `json:"creds"` // none | wrong | malformed | other-scheme | right | right-nil-principal
+	// several security alternatives (OR), each one scheme: Alts lists the schemes in the
+	// declared order (basic | key1 | key2), States says per alternative what the request
+	// carries for it: absent (does not apply) | fail (the authenticator returns its own
+	// coded error) | ok. Creds is unused then.
+	Alts   []string `json:"alts,omitempty"`
+	States []string `json:"states,omitempty"`
 }
 
 // Config is the part of a Case an environment is built from.
@@ -51,7 +57,8 @@ type Config struct {
 	Responses [][]string // declared response sets, one path /r<i> each
 	AuthCtor  string     // "" = operations are not secured
 	AuthRealm string
-	NoDocs    bool // serve through Context.RoutesHandler (no spec / docs middlewares in front)
+	AuthAlts  []string // several alternatives (see Auth.Alts); empty: the single alternative {basic}
+	NoDocs    bool     // serve through Context.RoutesHandler (no spec / docs middlewares in front)
 }
 
 type modeInfo struct {
@@ -173,7 +180,8 @@ type obs struct {
 	errCalls    []errCall
 	authRuns    int
 	authErr     error
-	stageErr    error // error returned by the typed binder (an "earlier stage" the harness owns)
+	authErrs    []error // every error an authenticator returned while this request was served
+	stageErr    error   // error returned by the typed binder (an "earlier stage" the harness owns)
 	w           *capWriter
 }
 
@@ -225,6 +233,15 @@ func loadDoc(cfg Config) (*loads.Document, []opReg) {
 	if cfg.AuthCtor != "" {
 		sp.SecurityDefs = map[string]any{"basic": map[string]any{"type": "basic"}}
 		sec = &[]map[string][]string{{"basic": {}}}
+		if len(cfg.AuthAlts) > 0 {
+			sp.SecurityDefs["key1"] = map[string]any{"type": "apiKey", "in": "header", "name": "X-Key1"}
+			sp.SecurityDefs["key2"] = map[string]any{"type": "apiKey", "in": "header", "name": "X-Key2"}
+			alts := []map[string][]string{}
+			for _, a := range cfg.AuthAlts {
+				alts = append(alts, map[string][]string{a: {}})
+			}
+			sec = &alts
+		}
 	}
 	var regs []opReg
 	for i, codes := range cfg.Responses {
@@ -304,6 +321,22 @@ func buildEnvWith(cfg Config, doc *loads.Document, regs []opReg) *env {
 		default:
 			panic("unknown auth constructor " + cfg.AuthCtor)
 		}
+		if len(cfg.AuthAlts) > 0 {
+			// API-key schemes whose refusal is an error of their own, distinguishable from
+			// the framework's generic 401 and from each other
+			for name, code := range map[string]int32{"key1": http.StatusForbidden, "key2": http.StatusTooManyRequests} {
+				name, code := name, code
+				api.RegisterAuth(name, security.APIKeyAuth("X-K"+name[1:], "header", func(token string) (interface{}, error) {
+					e.cur.authRuns++
+					if token == "good" {
+						return "principal-" + name, nil
+					}
+					err := errors.New(code, "%s refuses token %q", name, token)
+					e.cur.authErrs = append(e.cur.authErrs, err)
+					return nil, err
+				}))
+			}
+		}
 	}
 	e.api = api
 	e.ctx = middleware.NewContext(doc, api, nil)
@@ -325,6 +358,7 @@ func (e *env) authenticate(user, pass string) (interface{}, error) {
 		return nil, nil
 	}
 	e.cur.authErr = errors.New(http.StatusUnauthorized, "bad credentials for %s", user)
+	e.cur.authErrs = append(e.cur.authErrs, e.cur.authErr)
 	return nil, e.cur.authErr
 }
 
@@ -401,7 +435,24 @@ func rawRequest(c *Case, path string) string {
 	if !c.NoAccept {
 		fmt.Fprintf(&b, "Accept: %s\r\n", renderAccept(c.Accept))
 	}
-	if c.Auth != nil {
+	if c.Auth != nil && len(c.Auth.Alts) > 0 {
+		for i, a := range c.Auth.Alts {
+			st := c.Auth.States[i]
+			switch {
+			case st == "absent":
+			case a == "basic" && st == "fail":
+				b.WriteString("Authorization: Basic dTpiYWQ=\r\n") // u:bad
+			case a == "basic" && st == "ok":
+				b.WriteString("Authorization: Basic dTpnb29k\r\n") // u:good
+			case st == "fail":
+				fmt.Fprintf(&b, "X-K%s: bad\r\n", a[1:])
+			case st == "ok":
+				fmt.Fprintf(&b, "X-K%s: good\r\n", a[1:])
+			default:
+				panic("unknown alternative state " + st)
+			}
+		}
+	} else if c.Auth != nil {
 		switch c.Auth.Creds {
 		case "none":
 		case "wrong":
